@@ -1,6 +1,7 @@
 """C14 - multi-file mode partitions types by crate and imports cross-crate references.
-Proof: Props/C14.v (partition = find_crate_name of the path, union of the per-crate item lists = the
-single-file collector's list; imports sound unconditionally, complete on the declared domain; witnesses).
+Proof: Props/C14.v (24 theorems: partition = find_crate_name of the path, every file holds exactly the declarations of
+its crate's sources, union over the files = the single-file run; imports sound unconditionally, complete on
+dom_C14, good_C14 holds of the model for every workspace and every iteration order; one witness per finding class).
 Correspondence, through the REAL BINARY with `-d`: generated workspaces of 1-5 crates (directory names with
 dashes / underscores / digits, files at depth 0-3 under <crate>/src, files outside any src, nested
 src/../src), cross-crate references introduced by every `use` form of the property and by qualified
@@ -18,7 +19,8 @@ from vf import S, Lst, sx_opt
 LANGS = [('typescript', 'ts', [], {}), ('kotlin', 'kt', ['--java-package', 'p'], {'package': 'p'}), ('swift', 'swift', [], {}),
          ('scala', 'scala', ['--scala-package', 'p'], {'package': 'p'}), ('go', 'go', ['--go-package', 'p'], {'package': 'p'}), ('python', 'py', [], {})]
 IMPORT_LANGS = ('typescript', 'kotlin')
-CRATE_DIRS = ['alpha', 'beta-core', 'gamma_util', 'op-proxy2', 'x9', 'data-model', 'net_io', 'a1-b2_c3', 'delta', 'my-crate', 'core2', 'zeta_9-x', 'k-8s', 'u_i']
+CRATE_DIRS = ['alpha', 'beta-core', 'gamma_util', 'op-proxy2', 'x9', 'data-model', 'net_io', 'a1-b2_c3', 'delta', 'my-crate', 'core2', 'zeta_9-x', 'k-8s', 'u_i',
+              'two-dash-crate', 'x-y-z', 'q--r']
 SUBDIRS = [[], [], ['m1'], ['m1', 'm2'], ['deep', 'er', 'est'], ['api'], ['model', 'v1'], ['a', 'b', 'c']]
 GROUPS = [[], [], [], ['libs'], ['crates', 'shared']]
 FILE_STEMS = ['lib', 'mod', 'types', 'x', 'model', 'dto', 'y2']
@@ -232,13 +234,49 @@ def gen_workspace(rng, allow_const):
                 ws.tags.add('same-name-unknown-crate')
             refs.append(('user', 'Shared', []))
         if refs:
+            # the item that carries the references: a struct, an algebraic enum (tuple and struct variants),
+            # a type alias or a newtype - reconcile_referenced_types walks each kind separately
             it = progs.Item()
             link += 1
-            it.ident, it.kind = f'Link{link}', 'struct'
-            for k, t in enumerate(refs):
-                fld = progs.Field()
-                fld.ident, fld.ty = f'r{k}', t
-                it.fields.append(fld)
+            it.ident = f'Link{link}'
+            shape = rng.random()
+            if shape < 0.45:
+                it.kind = 'struct'
+                for k, t in enumerate(refs):
+                    fld = progs.Field()
+                    fld.ident, fld.ty = f'r{k}', t
+                    it.fields.append(fld)
+                ws.tags.add('refs-in-struct')
+            elif shape < 0.8:
+                it.kind, it.tag, it.content = 'alg_enum', 't', 'c'
+                for k, t in enumerate(refs):
+                    v = progs.Variant()
+                    v.ident = f'V{k}'
+                    if rng.random() < 0.5:
+                        v.kind, v.ty = 'tuple', t
+                        ws.tags.add('refs-in-tuple-variant')
+                    else:
+                        v.kind = 'struct'
+                        fld = progs.Field()
+                        fld.ident, fld.ty = f'r{k}', t
+                        v.fields = [fld]
+                        ws.tags.add('refs-in-struct-variant')
+                    it.variants.append(v)
+                if rng.random() < 0.3:
+                    v = progs.Variant()
+                    v.ident = 'Nothing'
+                    it.variants.append(v)
+            else:
+                it.kind, it.ty = rng.choice(['alias', 'newtype']), refs[0]
+                ws.tags.add('refs-in-' + it.kind)
+                if len(refs) > 1:
+                    it2 = progs.Item()
+                    it2.ident, it2.kind = f'Link{link}Rest', 'struct'
+                    for k, t in enumerate(refs[1:]):
+                        fld = progs.Field()
+                        fld.ident, fld.ty = f'r{k}', t
+                        it2.fields.append(fld)
+                    f['prog'].items.append(it2)
             f['prog'].items.append(it)
     for c in crates:
         if c.get('globbed', set()) & c.get('explicit', set()) or 'od' in c:
@@ -304,6 +342,15 @@ def corpus():
     mk('type-mapping', {'a/src/lib.rs': A, 'b/src/lib.rs': 'use a::{A1, A3};\n#[typeshare]\npub struct B1 { pub f: A1, pub g: A3 }\n'}, mappings={'A3': 'string'})
     mk('nested-use-tree', {'a/src/lib.rs': A, 'c/src/lib.rs': '#[typeshare]\npub enum C1 { X, Y }\n',
                            'b/src/d1/d2/d3/f.rs': 'use a::m::{x::A1, y::z::{A3}};\nuse c::{self, C1};\n#[typeshare]\npub struct B1 { pub f: A1, pub g: Option<A3>, pub h: C1 }\n'})
+    mk('two-dashes', {'my-two-dash/src/lib.rs': A, 'q--r/src/lib.rs': 'use my_two_dash::A1;\n#[typeshare]\npub struct Q1 { pub f: A1 }\n',
+                      'b/src/lib.rs': 'use my_two_dash::A3;\nuse q__r::Q1;\n#[typeshare]\npub struct B1 { pub f: A3, pub g: Q1 }\n'})
+    mk('refs-in-variants', {'a/src/lib.rs': A, 'c/src/lib.rs': '#[typeshare]\npub struct C1 { pub x: u8 }\n#[typeshare]\npub struct C2 { pub x: u8 }\n',
+                            'b/src/lib.rs': 'use a::{A1, A3};\nuse c::{C1, C2};\n#[typeshare]\n#[serde(tag = "t", content = "c")]\npub enum E1 { V0(A1), V1 { f: Vec<A3> }, V2 }\n'
+                                            '#[typeshare]\npub type L1 = Option<C1>;\n#[typeshare]\npub struct N1(C2);\n'})
+    mk('nested-tree-wrong-base', {'a/src/lib.rs': A, 'x/src/lib.rs': '#[typeshare]\npub struct X1 { pub x: u8 }\n',
+                                  'b/src/lib.rs': 'use a::x::{y::A1, z::{A3}};\nuse x::a::X1;\n#[typeshare]\npub struct B1 { pub f: A1, pub g: A3, pub h: X1 }\n'})
+    mk('glob-const', {'k/src/lib.rs': '#[typeshare]\npub struct K1 { pub x: u8 }\n#[typeshare]\npub const MyConst: u32 = 1;\n',
+                      'my-crate/src/lib.rs': 'use k::*;\nuse k::K1;\n#[typeshare]\npub struct B1 { pub f: K1 }\n'}, order=True, reps=12)
     mk('generic-param-not-a-reference', {'a/src/lib.rs': '#[typeshare]\npub struct U { pub x: u8 }\n', 'b/src/lib.rs': 'use a::U;\n#[typeshare]\npub struct B1<U> { pub f: U }\n'})
     return out
 
@@ -374,8 +421,9 @@ def decode_model(m):
     spec = {'paths': [([vf.unS(c) for c in p], sx_opt(o, vf.unS)) for p, o in sp['paths']],
             'crates': [{'crate': vf.unS(c), 'file': vf.unS(f), 'conventional': conv == 'true', 'defs': [vf.unS(x) for x in defs]} for c, f, conv, defs in sp['crates']],
             'judge': {}}
-    for c, good, unsound, refs in sp['judge']:
+    for c, good, unsound, refs, consts in sp['judge']:
         spec['judge'][vf.unS(c)] = {'good': good == 'true', 'unsound': [(vf.unS(a), vf.unS(b)) for a, b in unsound],
+                                    'const_imports': [(vf.unS(a), vf.unS(b)) for a, b in consts],
                                     'refs': [{'name': vf.unS(n), 'from': vf.unS(fr), 'generated': vf.unS(g), 'imported': imp == 'true',
                                               'elsewhere': [vf.unS(x) for x in els], 'dom': dom == 'true', 'known': sx_opt(kn)} for n, fr, g, imp, els, dom, kn in refs]}
     return {'status': status, 'files': files, 'spec': spec}
@@ -383,8 +431,8 @@ def decode_model(m):
 
 def run(chk):
     chk.rule = ('seeded workspaces of 1-5 crates (directory names with - _ digits, optionally under libs/ or crates/shared/), 1-3 files per crate at depth 0-3 '
-                'under src, 1-3 generated items per file (lib/progs.py, 20% serde-renamed types) plus one struct per file whose fields refer to types of other '
-                'crates / other files of the same crate; each reference is introduced by one of: use d::..::N, grouped use d::{..}, nested use d::m::{z::{N}, x::M}, '
+                'under src, 1-3 generated items per file (lib/progs.py, 20% serde-renamed types) plus one item per file - a struct, an algebraic enum with tuple and '
+                'struct variants, a type alias or a newtype - whose member types refer to types of other crates / other files of the same crate; each reference is introduced by one of: use d::..::N, grouped use d::{..}, nested use d::m::{z::{N}, x::M}, '
                 'glob, qualified path d::..::N, crate:: / super:: / self:: (use or path), unknown crate, std/serde_json (ignored crates); 25% with a type mapping on a '
                 'referenced type, 25% (>=3 crates) with a same-named type in two crates; files outside src, nested src/x/src, src/src; plus a hand-written corpus with '
                 'one workspace per finding class and domain boundary. Every workspace is run through the real binary in all six languages with -d and with -o. '
@@ -526,8 +574,11 @@ def run(chk):
                 # every definition sits in the file of the crate that contains its source
                 if lang == 'typescript':
                     for c in spec['crates']:
-                        here = {nm for _, nm in definitions(lang, impl['files'].get(c['file'], ''))}
-                        miss = [d for d in c['defs'] if d not in here and d.upper() not in here]
+                        found = definitions(lang, impl['files'].get(c['file'], ''))
+                        here = {nm for _, nm in found}
+                        # a const is written under the SCREAMING_SNAKE_CASE of its generated name
+                        consts = {nm.replace('_', '') for kind, nm in found if kind == 'const'}
+                        miss = [d for d in c['defs'] if d not in here and d.replace('_', '').upper() not in consts]
                         if miss and len(spec_files) == len(spec['crates']):
                             bad.append((f'{c["file"]} lacks the definitions {miss} of crate {c["crate"]}', None))
                 # --- (iii) imports: spec on the OBSERVED pairs
@@ -555,7 +606,9 @@ def run(chk):
                             for mod, nm in imports_of(lang, text):
                                 target = impl['files'].get(mod + '.ts')
                                 if target is None or nm not in {x for _, x in definitions(lang, target)}:
-                                    bad.append((f'{fname} imports {nm} from ./{mod} which does not define it', None))
+                                    # a const of the module, imported under its generated name (written in SCREAMING_SNAKE_CASE)?
+                                    known_const = (mod, nm) in spec['judge'].get(fname.rsplit('.', 1)[0], {}).get('const_imports', [])
+                                    bad.append((f'{fname} imports {nm} from ./{mod} which does not define it', 'C14-glob-const' if known_const else None))
             # --- equality with the model (per file: some evaluated order must give exactly these bytes)
             equal = True
             model_status_rc = {'ok': 0, 'err': 1, 'parse_errors': 1}.get(m0['status'])
